@@ -11,7 +11,7 @@
 use crate::prng::{mix3, Prng};
 use linfa::dataset::{AsTargets, DatasetBase, Records, TargetDim};
 use linfa::traits::{Fit, PredictInplace};
-use ndarray::{s, Array, Array1, Array2, ArrayView, ArrayView2, Axis, Dimension, Ix1, Ix2, RemoveAxis};
+use ndarray::{s, Array, Array1, Array2, ArrayView, ArrayView2, Axis, Dimension, Ix1, Ix2, RemoveAxis, ShapeBuilder};
 use serde::{Deserialize, Serialize};
 use std::cell::RefCell;
 use std::panic::{self, AssertUnwindSafe};
@@ -42,6 +42,10 @@ pub enum Layout {
     ViewContig,
     /// every second row of a larger buffer (only `fold` accepts non-contiguous data)
     ViewStrided,
+    /// owned arrays in column-major (Fortran) memory order (`fold` only)
+    OwnedColMajor,
+    /// transposed views of row-major buffers, i.e. column-major views (`fold` only)
+    ViewTransposed,
 }
 
 #[derive(Clone, Debug, PartialEq, Eq, Hash, Serialize, Deserialize)]
@@ -380,7 +384,7 @@ const GUARD: f64 = -7.25;
 
 fn make_buffers(case: &Case) -> Buffers {
     let (pad, step) = match case.layout {
-        Layout::Owned => (0, 1),
+        Layout::Owned | Layout::OwnedColMajor | Layout::ViewTransposed => (0, 1),
         Layout::ViewContig => (3, 1),
         Layout::ViewStrided => (1, 2),
     };
@@ -643,6 +647,15 @@ pub fn run_case(case: &Case) -> CaseOut {
                     let t1: Array1<f64> = b.tgt2.column(0).to_owned();
                     match case.layout {
                         Layout::Owned => drive_fold(case, &DatasetBase::new(b.rec.clone(), t1), &geo, &mut out),
+                        Layout::OwnedColMajor => {
+                            let mut f = Array2::<f64>::zeros((b.rec.nrows(), b.rec.ncols()).f());
+                            f.assign(&b.rec);
+                            drive_fold(case, &DatasetBase::new(f, t1), &geo, &mut out)
+                        }
+                        Layout::ViewTransposed => {
+                            let tr = b.rec.t().to_owned(); // standard layout of the transpose
+                            drive_fold(case, &DatasetBase::new(tr.t(), t1.view()), &geo, &mut out)
+                        }
                         _ => {
                             let tv = if step == 1 { t1.slice(s![pad..pad + n;1]) } else { t1.slice(s![pad..pad + n * step;2]) };
                             drive_fold(case, &DatasetBase::new(b.rec.slice(rows), tv), &geo, &mut out)
@@ -651,6 +664,18 @@ pub fn run_case(case: &Case) -> CaseOut {
                 } else {
                     match case.layout {
                         Layout::Owned => drive_fold(case, &DatasetBase::new(b.rec.clone(), b.tgt2.clone()), &geo, &mut out),
+                        Layout::OwnedColMajor => {
+                            let mut f = Array2::<f64>::zeros((b.rec.nrows(), b.rec.ncols()).f());
+                            f.assign(&b.rec);
+                            let mut ft = Array2::<f64>::zeros((b.tgt2.nrows(), b.tgt2.ncols()).f());
+                            ft.assign(&b.tgt2);
+                            drive_fold(case, &DatasetBase::new(f, ft), &geo, &mut out)
+                        }
+                        Layout::ViewTransposed => {
+                            let tr = b.rec.t().to_owned();
+                            let tt = b.tgt2.t().to_owned();
+                            drive_fold(case, &DatasetBase::new(tr.t(), tt.t()), &geo, &mut out)
+                        }
                         _ => drive_fold(case, &DatasetBase::new(b.rec.slice(rows), b.tgt2.slice(rows)), &geo, &mut out),
                     }
                 }
@@ -796,7 +821,7 @@ pub fn plan(tier: &str, seed: u64) -> Plan {
     for n in 2..=nmax {
         for k in 2..=n {
             // fold(): every layout, single/multi target
-            for layout in [Layout::Owned, Layout::ViewContig, Layout::ViewStrided] {
+            for layout in [Layout::Owned, Layout::ViewContig, Layout::ViewStrided, Layout::OwnedColMajor, Layout::ViewTransposed] {
                 for nt in [0usize, 2] {
                     cases.push(Case { api: Api::Fold, n, k, nf: 1 + (n + k) % 3, nt, layout, models: 1, faults: vec![], f32acc: false, dyadic: true, val_seed: 0, panic_at: None });
                 }
@@ -848,7 +873,7 @@ pub fn plan(tier: &str, seed: u64) -> Plan {
             _ => Api::CrossValidate,
         };
         let layout = match api {
-            Api::Fold => *r.pick(&[Layout::Owned, Layout::ViewContig, Layout::ViewStrided]),
+            Api::Fold => *r.pick(&[Layout::Owned, Layout::ViewContig, Layout::ViewStrided, Layout::OwnedColMajor, Layout::ViewTransposed]),
             Api::CrossValidateSingle => Layout::ViewContig,
             _ => *r.pick(&[Layout::Owned, Layout::ViewContig]),
         };
@@ -900,7 +925,7 @@ pub fn plan(tier: &str, seed: u64) -> Plan {
     Plan {
         cases,
         exhaustive_grid: format!(
-            "all 2<=k<=n<={nmax}: fold x 3 layouts x {{1-D, 2-col}} targets; iter_fold x 2 layouts x 3 target shapes; cross_validate x 1..3 models x every single fault (fold,model,stage) and every pair of faults where n<={} and k<=4",
+            "all 2<=k<=n<={nmax}: fold x 5 layouts (row-major, contiguous view, strided view, column-major owned, transposed view) x {{1-D, 2-col}} targets; iter_fold x 2 layouts x 3 target shapes; cross_validate x 1..3 models x every single fault (fold,model,stage) and every pair of faults where n<={} and k<=4",
             if thorough { 12 } else { 8 }
         ),
     }
